@@ -1,5 +1,11 @@
 import layouts
 
+
+def warm_layouts():
+    layouts.load_cases("Layouts_quick.cfg")
+    layouts.load_cases("Layouts_chain.cfg")
+
+
 CHECKS = {
     "C01": layouts.check_c01,
     "C02": layouts.check_c02,
@@ -7,3 +13,4 @@ CHECKS = {
     "C05": layouts.check_c05,
     "C08": layouts.check_c08,
 }
+WARM = [warm_layouts]
